@@ -806,6 +806,51 @@ func inflight(r *vh.Run, i int) {
 	}
 }
 
+// overlap: family 5 - two PATCH requests of one session in flight together, both declaring the same start.  The first
+// has sent its headers (its start was compared with the bytes received: 0 of 0, fine) and holds its body back; the
+// second delivers 4 bytes and is acknowledged.  When the body of the first arrives, its declared start (0) differs
+// from the bytes received (4): "refused without altering the session".  The check of the offset and the writing of
+// the body are not one step in the handlers (recorded finding K10).
+func overlap(r *vh.Run, i int) {
+	kind := []vh.StoreKind{vh.Mem, vh.Dir}[i%2]
+	root := ""
+	if kind == vh.Dir {
+		root = r.TempDir("c08o")
+		defer vh.RemoveAll(root)
+	}
+	srv := vh.New(vh.Conf(kind, root, vh.Neutral))
+	defer srv.Close()
+	rs := vh.Do(srv, vh.Req{Method: "POST", URL: "/v2/o/blobs/uploads/"})
+	loc := rs.H.Get("Location")
+	if rs.Status != 202 || loc == "" {
+		return
+	}
+	pr, pw := io.Pipe()
+	body := &pipeBody{r: pr}
+	reqA := httptest.NewRequest("PATCH", loc, body)
+	reqA.Header.Set("Content-Range", "0-3")
+	reqA.ContentLength = 4
+	doneA := make(chan *httptest.ResponseRecorder, 1)
+	go func() {
+		w := httptest.NewRecorder()
+		srv.ServeHTTP(w, reqA)
+		doneA <- w
+	}()
+	// give the handler of A the time to pass its checks (nothing decides on this pause: if A has not got that far, B's
+	// write comes first and A is refused for its stale start - the trial then shows nothing)
+	time.Sleep(20 * time.Millisecond)
+	b := vh.Do(srv, vh.Req{Method: "PATCH", URL: loc, H: map[string]string{"Content-Range": "0-3"}, Body: []byte("BBBB")})
+	_, _ = pw.Write([]byte("AAAA"))
+	_ = pw.Close()
+	a := <-doneA
+	r.Count("overlap_trials", 1)
+	r.Distinct("overlap_cells", fmt.Sprintf("%s/%d/%d", kind, a.Code/100, b.Status/100))
+	if a.Code == 202 && b.Status == 202 {
+		r.Violation("K10:overlapping-chunks-both-accepted", fmt.Sprintf("two PATCH requests of one session, both with Content-Range 0-3, were both acknowledged (the second while the first was waiting for its body): the first one's chunk, declared for offset 0, was appended at offset 4 (Range answered %q; %s store)", a.Header().Get("Range"), kind),
+			map[string]any{"trial": i, "store": kind.String(), "first_patch_range_header": a.Header().Get("Range"), "second_patch_range_header": b.H.Get("Range")})
+	}
+}
+
 func main() {
 	r := vh.Start()
 	np := r.N(200, 8000)
@@ -824,6 +869,8 @@ func main() {
 			inflight(r, i-nb-ne)
 		}
 	})
+	no := r.N(12, 200)
+	vh.Parallel(no, 4, func(i int) { overlap(r, i) })
 	r.Require("inflight_trials", int64(nf/2))
 	r.Count("cases", np+nb+ne+nf)
 	r.Require("sessions", int64(np*3))
@@ -832,5 +879,5 @@ func main() {
 	r.Require("evictions_observed", 20)
 	r.Require("expiries_observed", 10)
 	r.RequireDistinct("patch_classes", 20)
-	r.Finish("(1) protocol sequences of 40-80 requests over <=5 interleaved sessions in repositories a and a/b: PATCH with Content-Range right/none/stale/future/malformed x state right/stale/future/malformed/absent, empty chunks, foreign-repository use, cancel, PUT right/wrong/prefix digest/stale state, reuse of finished ids; status query of every open session, conservation (model == hook listing == _uploads files) and prefix-digest probes after every request; (2) RepoUploadMax in {1,2,3,10} with N+k sessions, expiry enabled or disabled: bound and LRU; (3) expiry with 40/80 ms grace, one-sided timing. A case is one sequence/trial, distinct = (range class, state class) pairs exercised", "cases", "patch_classes")
+	r.Finish("(1) protocol sequences of 40-80 requests over <=5 interleaved sessions in repositories a and a/b: PATCH with Content-Range right/none/stale/future/malformed x state right/stale/future/malformed/absent, empty chunks, foreign-repository use, cancel, PUT right/wrong/prefix digest/stale state, reuse of finished ids; status query of every open session, conservation (model == hook listing == _uploads files) and prefix-digest probes after every request; (2) RepoUploadMax in {1,2,3,10} with N+k sessions, expiry enabled or disabled: bound and LRU; (3) expiry with 40/80 ms grace, one-sided timing; (4) sessions ended while the completing PUT is in flight; (5) two PATCH requests of one session in flight with the same start. A case is one sequence/trial, distinct = (range class, state class) pairs exercised", "cases", "patch_classes")
 }
